@@ -213,7 +213,10 @@ def register(props):
         "rule": "c04total: every fixed schema (13 leaf kinds alone and under list / map / 1- and 2-property objects, int/string "
                 "one-ofs inlined or not, recursive / mutually recursive / list- and map-carried / external-namespace references, "
                 "nested scopes, harmless and cyclic single-property chains, harmless and diverging defaults) and seeded generated "
-                "scopes x {the whole pool of ~150 decoder-producible and arbitrary Go values at the root; a pool value injected at "
+                "scopes x {the whole pool of ~160 decoder-producible and arbitrary Go values at the root - among them maps whose KEY is a "
+                "float NaN (not equal to itself, so it cannot be looked up again: D81), +-Inf or -0, untyped and float-keyed, alone and "
+                "below a map / list / object property / one-of member; NaN is hashable and is injected at key positions like every other "
+                "pool value -; a pool value injected at "
                 "every position (values and keys) of a valid raw tree (Unserialize, data-mode compatibility) and of the native tree "
                 "Unserialize returned (Validate, Serialize); random compositions; for every fixed schema with units every edge string "
                 "of its own unit definition (zero counts in every position, totals at the int64 edge, counts beyond int64) alone and as "
